@@ -401,7 +401,38 @@ func histSame(a, b any) bool {
 	return same(a, b)
 }
 
+// what String() denotes agrees with what Get-navigation shows
+func histStringAgrees(v any) string {
+	s := serial(v)
+	if !json.Valid([]byte(s)) {
+		return fmt.Sprintf("String() %q is not valid JSON", s)
+	}
+	d := json.NewDecoder(strings.NewReader(s))
+	d.UseNumber()
+	var j any
+	if err := d.Decode(&j); err != nil {
+		return "decoder error: " + err.Error()
+	}
+	if m := jsonTreeEqual(v, j); m != "" {
+		return "String() " + s + ": " + m
+	}
+	if o, ok := v.(Object); ok {
+		if mm, ok := j.(map[string]any); !ok || len(mm) != o.Count() || strings.Count(s, "\":") < o.Count() {
+			return fmt.Sprintf("String() %q does not have one member per field", s)
+		}
+	}
+	return ""
+}
+
 func histSiblingsOK(sibs []histSibling) string {
+	for _, s := range sibs {
+		switch s.val.(type) {
+		case List, Object:
+			if m := histStringAgrees(s.val); m != "" {
+				return fmt.Sprintf("a %s taken earlier: %s", s.what, m)
+			}
+		}
+	}
 	for _, s := range sibs {
 		switch x := s.val.(type) {
 		case List:
@@ -884,8 +915,145 @@ func histObjectChecks(prop string, h *histObject) string {
 	return ""
 }
 
+// Arguments belong to the caller: a slice spread into a variadic parameter, a native slice or map handed to a
+// constructor, a container passed as operand - none of them is modified by the call, and using the same argument a
+// second time gives the same result. (Delete sorting its index slice is the documented exception.)
+func argsUnchangedChecks(c *oracleCtx) {
+	mkVals := func() []any {
+		return []any{1, int8(2), uint16(3), float32(1.5), "x", nil, true, []any{1, "n"}, map[string]any{"k": 1}, NewList(7), NewObject("o", 1)}
+	}
+	type entry struct {
+		id string
+		f  func(vals []any) any
+	}
+	entries := []entry{
+		{"NewList(s...)", func(v []any) any { return NewList(v...) }},
+		{"Add(s...)", func(v []any) any { return NewList("h").Add(v...) }},
+		{"Add(s...) on spare capacity", func(v []any) any { l := NewList(1, 2, 3, 4, 5); l.Pop(); l.Pop(); return l.Add(v...) }},
+		{"NewListFrom(s)", func(v []any) any { return NewListFrom(v) }},
+		{"Insert(s[i])", func(v []any) any {
+			l := NewList()
+			for _, e := range v {
+				l.Insert(0, e)
+			}
+			return l
+		}},
+		{"NewObject(pairs...)", func(v []any) any {
+			var pairs []any
+			for i, e := range v {
+				pairs = append(pairs, "k"+strconv.Itoa(i), e)
+			}
+			keep := append([]any{}, pairs...)
+			o := NewObject(pairs...)
+			if !reflect.DeepEqual(histShallow(pairs), histShallow(keep)) {
+				return "modified"
+			}
+			return o
+		}},
+		{"Set(pairs...)", func(v []any) any {
+			var pairs []any
+			for i, e := range v {
+				pairs = append(pairs, "k"+strconv.Itoa(i), e)
+			}
+			keep := append([]any{}, pairs...)
+			o := NewObject("k0", "old").Set(pairs...)
+			if !reflect.DeepEqual(histShallow(pairs), histShallow(keep)) {
+				return "modified"
+			}
+			return o
+		}},
+	}
+	for _, e := range entries {
+		e := e
+		c.check("ARGS:"+e.id, true, func() string {
+			vals := mkVals()
+			keep := append([]any{}, vals...)
+			r1 := e.f(vals)
+			if r1 == "modified" || !reflect.DeepEqual(histShallow(vals), histShallow(keep)) {
+				return e.id + " modified the slice it was given: " + fmt.Sprint(histShallow(vals))
+			}
+			r2 := e.f(vals)
+			if !reflect.DeepEqual(nativeAny(r1), nativeAny(r2)) {
+				return e.id + " gives a different result when the same arguments are used a second time"
+			}
+			// native sub-slices / maps become fresh containers each time: the two results share none
+			if l1, ok := r1.(List); ok {
+				l2 := r2.(List)
+				for i := 0; i < l1.Count(); i++ {
+					if _, nat := keep[i%len(keep)].([]any); nat && l1.TypeOf(i) == TypeList && same(l1.Get(i), l2.Get(i)) {
+						return e.id + ": two calls with the same native slice share the container built from it"
+					}
+				}
+			}
+			return ""
+		})
+	}
+	c.check("ARGS:native-map", true, func() string {
+		m := map[string]any{"a": 1, "b": []any{1}, "c": map[string]any{"d": int8(1)}}
+		keep := map[string]any{"a": 1, "b": []any{1}, "c": map[string]any{"d": int8(1)}}
+		o := NewObjectFrom(m)
+		if !reflect.DeepEqual(m, keep) {
+			return "NewObjectFrom modified the map it was given"
+		}
+		m["a"] = 2
+		m["b"].([]any)[0] = 9
+		if o.GetInt("a") != 1 || o.GetList("b").GetInt(0) != 1 {
+			return "an object built from a native map changes when the map is modified afterwards"
+		}
+		ks := []string{"name", "breed", "age"}
+		keepK := append([]string{}, ks...)
+		src := NewObject("name", 1, "breed", 2, "age", 3, "x", 4)
+		p1 := src.Pluck(ks...)
+		src.Clone().Unset(ks...)
+		if !reflect.DeepEqual(ks, keepK) {
+			return "Pluck / Unset modified the key slice they were given"
+		}
+		if p2 := src.Pluck(ks[:2]...); p2.Count() != 2 || !p2.KeyExists("name") || !p2.KeyExists("breed") || p1.Count() != 3 {
+			return "Pluck with a reused key slice selects other fields"
+		}
+		return ""
+	})
+	c.check("ARGS:operands", true, func() string {
+		in := NewList(1)
+		a, b := NewList(in, 2), NewList(3)
+		oa, ob := NewObject("l", in, "n", 1), NewObject("l", in, "m", 2)
+		sa, sb, soa, sob := nativeAny(a), nativeAny(b), nativeAny(oa), nativeAny(ob)
+		cc, mm := a.Concat(b), oa.Merge(ob)
+		a.Concat(a)
+		self := oa.Merge(oa)
+		if !reflect.DeepEqual(sa, nativeAny(a)) || !reflect.DeepEqual(sb, nativeAny(b)) || !reflect.DeepEqual(soa, nativeAny(oa)) || !reflect.DeepEqual(sob, nativeAny(ob)) {
+			return "Concat / Merge modified an operand"
+		}
+		// the argument's fields are held by reference (also when the receiver holds the very same container under that key)
+		if !same(mm.Get("l"), in) || !same(self.Get("l"), in) || !same(cc.Get(0), in) {
+			return "Merge / Concat do not hold the argument's nested container by reference"
+		}
+		if mm.GetInt("m") != 2 || mm.GetInt("n") != 1 || mm.Count() != 3 {
+			return "Merge result has the wrong fields"
+		}
+		return ""
+	})
+}
+
+// scalars and native values as they are, containers by identity (pointer): for slices given to an entry point
+func histShallow(v []any) []any {
+	out := make([]any, len(v))
+	for i, e := range v {
+		switch x := e.(type) {
+		case List, Object:
+			out[i] = fmt.Sprintf("%T@%p", x, x)
+		default:
+			out[i] = e
+		}
+	}
+	return out
+}
+
 // histChecks runs the generic restatement of `prop` on the history-built corpus.
 func histChecks(c *oracleCtx, prop string) {
+	if prop == "C12" || prop == "C05" || prop == "C06" || prop == "C09" || prop == "C13" {
+		argsUnchangedChecks(c)
+	}
 	nl, no := 160, 110
 	if c.thorough {
 		nl, no = 6000, 4000
